@@ -329,6 +329,8 @@ impl World {
         self.clients[m].offers += 1;
         if first {
             self.clients[m].first_offer_state.insert(idx, before.clone());
+            let nid = with_mdk!(self.clients[m].mdk, x => x.get_group(&gid).ok().flatten().map(|r| r.nostr_group_id));
+            self.clients[m].first_offer_nid.insert(idx, nid);
             let seq = self.clients[m].offers;
             self.clients[m].first_offer_seq.insert(idx, seq);
         }
